@@ -669,23 +669,26 @@ fn element_script(r: &mut Rng, kind: MacroKind, n: usize, truth_role: bool) -> V
         };
         out.push(a);
     }
-    // fault placement: first, deciding, after-deciding, last, random, none
+    // fault placement: first, deciding, after-deciding, last, random, none.  A body may also
+    // fail the way absent data fails (missing field, unbound name): for a macro that is a
+    // failing body like any other
+    let cls = if r.chance(1, 4) { *r.pick(&[Class::Attribute, Class::Binding]) } else { inj_class(r) };
     match r.below(8) {
-        0 => out[0] = Answer::Fail(inj_class(r)),
+        0 => out[0] = Answer::Fail(cls),
         1 => {
             if deciding < n {
-                out[deciding] = Answer::Fail(inj_class(r));
+                out[deciding] = Answer::Fail(cls);
             }
         }
         2 => {
             if deciding + 1 < n {
-                out[deciding + 1] = Answer::Fail(inj_class(r));
+                out[deciding + 1] = Answer::Fail(cls);
             }
         }
-        3 => out[n - 1] = Answer::Fail(inj_class(r)),
+        3 => out[n - 1] = Answer::Fail(cls),
         4 => {
             let i = r.usize(n);
-            out[i] = Answer::Fail(inj_class(r));
+            out[i] = Answer::Fail(cls);
         }
         _ => {}
     }
@@ -1330,7 +1333,13 @@ fn gen08_expr(b: &mut Builder, r: &mut Rng, depth: u32) -> E {
         // a macro: all of them fail the way the path fails, so absent stays absent
         if r.chance(1, 4) {
             let absent_like = !matches!(cfg, PathCfg::Present | PathCfg::NullLeaf | PathCfg::RootCallback | PathCfg::RootProgram | PathCfg::LiteralPresent);
-            let wrapped = match r.below(6) {
+            let wrapped = match r.below(7) {
+                // a type error of a built-in is a failure other than absence
+                6 => E::NCall(r.pick(&["abs", "floor", "ceil", "sqrt"]).to_string(), vec![match r.below(3) {
+                    0 => E::Lit(V::s("not a number")),
+                    1 => b.bound(V::s("abc")),
+                    _ => b.bound(V::list(vec![V::Int(1)])),
+                }]),
                 5 if absent_like => E::NCall(r.pick(&["int", "string", "type", "double", "bool"]).to_string(), vec![p.clone()]),
                 4 if absent_like => E::Reduce(
                     Box::new(E::Lit(V::list(vec![V::Int(1), V::Int(2)]))),
